@@ -19,8 +19,8 @@ pub const EXTRA_FLAGS: [&str; 2] = ["subtables_explored", "unpruned_extension_to
 pub fn plan(quick: bool) -> Vec<Part> {
     let mut v = vec![];
     let (l4, p4, t4) = if quick { (8, 5, 7) } else { (11, 6, 9) };
-    let (l5, p5, t5) = if quick { (8, 5, 7) } else { (11, 7, 9) };
-    let (l6, p6) = if quick { (8, 0) } else { (11, 7) };
+    let (l5, p5, t5) = if quick { (8, 5, 7) } else { (11, 6, 9) };
+    let (l6, p6) = if quick { (8, 0) } else { (11, 6) };
     v.push(Part::new("C01", "R1+RT", 4, Space::singles(4, l4).plus(Space::thresholds(4, t4))).dim("sub", &[if quick { 5 } else { 8 }]));
     v.push(Part::new("C01", "R2", 4, Space::pairs(4, p4)).dim("sub", &[0]));
     v.push(Part::new("C01", "R1+RT", 5, Space::singles(5, l5).plus(Space::thresholds(5, t5))).dim("sub", &[if quick { 4 } else { 7 }]));
@@ -30,7 +30,7 @@ pub fn plan(quick: bool) -> Vec<Part> {
         v.push(Part::new("C01", "R2", 6, Space::pairs(6, p6)).dim("sub", &[0]));
     }
     if !quick {
-        v.push(Part::new("C01", "R3", 4, Space::triples(4, 5)).dim("sub", &[0]));
+        v.push(Part::new("C01", "R3", 4, Space::triples(4, 4)).dim("sub", &[0]));
     }
     for k in BIG_K {
         v.push(Part::new("C01", "catalogue", k, Space { segs: vec![catalogue(k)] }).dim("sub", &[0]));
